@@ -145,6 +145,17 @@ CHECKS["C06"] = dict(
     design="DESIGN.md section 3 / C06",
 )
 
+CHECKS["C12"] = dict(
+    technique="abstract interpretation of arc_to_cubic.py over symbolic arcs with rational-function comparison against SVG 1.1 F.6.5/F.6.6 (radius correction, flag symmetries, segment continuity, control-point construction, back-transform order), path-condition inspection of the dispatch",
+    text="The 0.03% accuracy bound and the number of segments are numeric and not decided. Decided for all arcs at once: |rx|,|ry| reach the "
+         "parametrisation, coincident end points (exact equality, tested first) give nothing and zero radii one straight segment, the radius "
+         "correction uses Lambda of F.6.6 with the half chord rotated by -phi and scales both radii, the centre/angle selection has the flag structure "
+         "of F.6.5 (mirror centres, negation iff sweep == large, 2pi adjustment by sweep), consecutive segments join, control points follow the "
+         "tangent construction, points are mapped back by translate o rotate o scale, and the last segment ends at the exact end point.",
+    note="Not applicable to this family: distance of the cubics from the true ellipse, segment count (numeric). atan2/sqrt/max are opaque atoms.",
+    design="DESIGN.md section 3 / C12",
+)
+
 NOT_APPLICABLE = {}
 
 
